@@ -63,7 +63,7 @@ MigSetup ==
         s2 == Apply(Cfg, s1, MigStoreOf).st
         sp == s2.shards[1].sp
     IN <<MigStoreOf, [E0 EXCEPT !.kind = "Complete", !.creator = sp, !.provider = sp, !.order = 1, !.size = 1000]>>
-FullSetup == IF Family \in {"migrate", "version", "debt", "stagger"} THEN SetupEvents \o MigSetup ELSE AllSetup
+FullSetup == IF Family \in {"migrate", "version", "debt", "stagger", "capacity"} THEN SetupEvents \o MigSetup ELSE AllSetup
 
 InitState == FoldLeft(LAMBDA s, e : Apply(Cfg, s, e).st, Gen.post, FullSetup)
 
@@ -202,6 +202,21 @@ RewardEvents(s) ==
     {[E0 EXCEPT !.kind = k, !.creator = a, !.size = 1000000] : k \in {"AddVstorage", "RemoveVstorage"}, a \in {"a01", "a02"}}
     \cup {[E0 EXCEPT !.kind = "Claim", !.creator = a] : a \in {"a01", "a02", "a03"}}
     \cup {[E0 EXCEPT !.kind = "Blocks", !.n = n] : n \in {1, 3}}
+
+\* capacity: capacity pledges of every size around the rounding boundaries of the per-byte price (adding rounds UP to whole
+\* units of 10^6 bytes, withdrawing rounds DOWN), by the holder of a stored shard and by a provider without shards, claims and
+\* minting blocks in between, the shard ended by termination: C07 (capacity backing a shard cannot be withdrawn, used <= pledged,
+\* coins back to the pledger), C08 (every capacity change settles the pending reward first; the share base is the pledged
+\* capacity), C14 (pool aggregates are the sums) on every step.
+CapacityEvents(s) ==
+    LET holders == {sh.sp : sh \in {x \in Rng(s.shards) : x.status = SCompleted}}
+        other == CHOOSE a \in Rng(Nodes) : a \notin holders
+        who == holders \cup {other}
+    IN {[E0 EXCEPT !.kind = "AddVstorage", !.creator = a, !.size = z] : a \in who, z \in {1, 1000000, 1000001}}
+       \cup {[E0 EXCEPT !.kind = "RemoveVstorage", !.creator = a, !.size = z] : a \in who, z \in {1000000, 1999999, 2000000, 3000001}}
+       \cup {[E0 EXCEPT !.kind = "Claim", !.creator = a] : a \in who}
+       \cup {[E0 EXCEPT !.kind = "Blocks", !.n = n] : n \in {1, 3}}
+       \cup Terminates(s)
 
 \* auth: one model of d1; every request kind by both DIDs through the gateway, its hot key, a stranger and a node that
 \* declared the stranger's address; adversarial commit shapes
@@ -371,6 +386,7 @@ Events(s) ==
       [] Family \in {"migrate", "stagger"} -> MigrateEvents(s)
       [] Family = "version" -> VersionEvents(s)
       [] Family = "debt"    -> DebtEvents(s)
+      [] Family = "capacity" -> CapacityEvents(s)
       [] Family = "gen" -> GStoreNew(s) \cup GStoreMore(s) \cup GStoreUpd(s) \cup GCompletes(s) \cup GCancels(s) \cup GSigned(s)
                            \cup Migrates(s) \cup Claims(s) \cup GBlocks(s) \cup GenDid(s) \cup GenStaking(s) \cup GenFaults(s)
       [] Family = "pay" -> StoreNew(s) \cup StoreUpd(s) \cup Completes(s) \cup Cancels(s) \cup Terminates(s) \cup Renews(s)
